@@ -3,21 +3,43 @@
   list of `x` moved by `d`" to "the picture of `x.translate(d)` is the picture of `x` shifted by
   `d`", for both recording targets (`runNative` = R2 native fills, `runDefault` = R1 trait
   defaults). Side condition per call: the area handed to `fill_solid` / `fill_contiguous` lies in
-  the `i32` range before and after the move (where `Rectangle::points` does not saturate);
-  `draw_iter` calls need nothing.
+  the `i32` range before and after the move (where `Rectangle::points` does not saturate) or is
+  empty; `draw_iter` calls need nothing.
 -/
 import EG.Lemmas.PMapTranslate
 import EG.Lemmas.ScanlinePaths
 namespace EG
 open EG.Tgt
 
-/-- The area a call hands to the target lies in the `i32` range before and after the move by `d`
-(`clear` uses the target's box `B`). Decidable. -/
+/-- A rectangle whose `points()` move with it: empty (no points before or after), or inside the
+`i32` range before and after the move by `d` (no saturation in `rows()` / `columns()`). Decidable. -/
+def Rect.MoveOK (d : Pt) (a : Rect) : Prop :=
+  a.isZeroSized = true ∨ (a.InRange ∧ (a.translate d).InRange)
+
+instance (d : Pt) (a : Rect) : Decidable (a.MoveOK d) := by unfold Rect.MoveOK; exact inferInstance
+
+theorem Rect.MoveOK.of_inRange {d : Pt} {a : Rect} (h : a.InRange) (h' : (a.translate d).InRange) :
+    a.MoveOK d := Or.inr ⟨h, h'⟩
+
+theorem Rect.pointsSpec_translate_of_moveOK {d : Pt} {a : Rect} (h : a.MoveOK d) :
+    (a.translate d).pointsSpec = a.pointsSpec.map (fun p => p + d) := by
+  rcases h with hz | ⟨h, h'⟩
+  · unfold Rect.pointsSpec
+    rw [Rect.isZeroSized_translate, if_pos hz, if_pos hz]
+    rfl
+  · exact Rect.pointsSpec_translate a d h h'
+
+theorem Rect.points_translate_of_moveOK {d : Pt} {a : Rect} (h : a.MoveOK d) :
+    (a.translate d).points = a.points.map (fun p => p + d) := by
+  rw [Rect.points_eq_spec, Rect.points_eq_spec, Rect.pointsSpec_translate_of_moveOK h]
+
+/-- The area a call hands to the target is empty or lies in the `i32` range before and after the
+move by `d` (`clear` uses the target's box `B`). Decidable. -/
 def Call.MoveOK (B : Rect) (d : Pt) : Call → Prop
   | .drawIter _ => True
-  | .fillContiguous a _ => a.InRange ∧ (a.translate d).InRange
-  | .fillSolid a _ => a.InRange ∧ (a.translate d).InRange
-  | .clear _ => B.InRange ∧ (B.translate d).InRange
+  | .fillContiguous a _ => a.MoveOK d
+  | .fillSolid a _ => a.MoveOK d
+  | .clear _ => B.MoveOK d
 
 instance (B : Rect) (d : Pt) (c : Call) : Decidable (c.MoveOK B d) := by
   cases c <;> unfold Call.MoveOK <;> exact inferInstance
@@ -41,16 +63,16 @@ theorem Call.lowerNative_translate (B : Rect) (d : Pt) (c : Call) (h : c.MoveOK 
   | fillContiguous a cs =>
     unfold Call.MoveOK at h
     simp only [Call.translate, Call.lowerNative, Writes.translate]
-    rw [Rect.pointsSpec_translate a d h.1 h.2, zip_map_left']
+    rw [Rect.pointsSpec_translate_of_moveOK h, zip_map_left']
   | fillSolid a col =>
     unfold Call.MoveOK at h
     simp only [Call.translate, Call.lowerNative, Writes.translate]
-    rw [Rect.pointsSpec_translate a d h.1 h.2, List.map_map, List.map_map]
+    rw [Rect.pointsSpec_translate_of_moveOK h, List.map_map, List.map_map]
     rfl
   | clear col =>
     unfold Call.MoveOK at h
     simp only [Call.translate, Call.lowerNative, Writes.translate]
-    rw [Rect.pointsSpec_translate B d h.1 h.2, List.map_map, List.map_map]
+    rw [Rect.pointsSpec_translate_of_moveOK h, List.map_map, List.map_map]
     rfl
 
 /-- The trait-default lowering of a moved call on the moved box = the moved lowering. -/
@@ -61,15 +83,15 @@ theorem Call.lowerDefault_translate (B : Rect) (d : Pt) (c : Call) (h : c.MoveOK
   | fillContiguous a cs =>
     unfold Call.MoveOK at h
     simp only [Call.translate, Call.lowerDefault, Writes.translate]
-    rw [Rect.points_translate a d h.1 h.2, zip_map_left']
+    rw [Rect.points_translate_of_moveOK h, zip_map_left']
   | fillSolid a col =>
     unfold Call.MoveOK at h
     simp only [Call.translate, Call.lowerDefault, Writes.translate]
-    rw [Rect.points_translate a d h.1 h.2, zip_map_left', List.length_map]
+    rw [Rect.points_translate_of_moveOK h, zip_map_left', List.length_map]
   | clear col =>
     unfold Call.MoveOK at h
     simp only [Call.translate, Call.lowerDefault, Writes.translate]
-    rw [Rect.points_translate B d h.1 h.2, zip_map_left', List.length_map]
+    rw [Rect.points_translate_of_moveOK h, zip_map_left', List.length_map]
 
 theorem flatMap_map_translate {f f' : Call → Writes} (d : Pt) : ∀ (calls : List Call),
     (∀ c ∈ calls, f' (c.translate d) = Writes.translate d (f c)) →
